@@ -32,6 +32,11 @@ pub struct ChaosCase {
     /// min_latency value): the last value of each bound is the one that counts
     #[serde(default)]
     pub max_first: bool,
+    /// the history starts this many microseconds after a millisecond tick of the clock (timers
+    /// armed at such instants fire up to 1 ms late; a request that is passed through involves no
+    /// timer of the layer's and is not delayed at all)
+    #[serde(default)]
+    pub clock_offset_us: u32,
 }
 
 fn rate() -> BoxedStrategy<u16> {
@@ -63,9 +68,14 @@ fn case_strategy(tier: Tier) -> BoxedStrategy<ChaosCase> {
             (prop_oneof![2 => Just(0u8), 1 => 1u8..=5], prop_oneof![2 => Just(0u8), 1 => 0u8..=8], prop::bool::weighted(0.8)),
             1..=max_reqs,
         ),
-        (prop_oneof![1 => Just(0u64), 1 => Just(u64::MAX), 2 => any::<u64>()], any::<bool>(), any::<bool>()),
+        (
+            prop_oneof![1 => Just(0u64), 1 => Just(u64::MAX), 2 => any::<u64>()],
+            any::<bool>(),
+            any::<bool>(),
+            prop_oneof![4 => Just(0u32), 1 => prop_oneof![Just(1u32), Just(500u32), Just(999u32), 1u32..=999]],
+        ),
     )
-        .prop_map(|(seed, error_rate, latency_rate, min_ms, max_ms, mut requests, (clone_mask, settings_first, max_first))| {
+        .prop_map(|(seed, error_rate, latency_rate, min_ms, max_ms, mut requests, (clone_mask, settings_first, max_first, clock_offset_us))| {
             if min_ms.max(max_ms) >= 1000 {
                 // seconds of injected latency: keep the history short
                 requests.truncate(4);
@@ -80,6 +90,7 @@ fn case_strategy(tier: Tier) -> BoxedStrategy<ChaosCase> {
             clone_mask,
             settings_first,
             max_first,
+            clock_offset_us,
             }
         })
         .boxed()
@@ -106,6 +117,7 @@ const INJECTED: u32 = 999;
 /// futures of one instant are created first and polled afterwards, in the same order)
 async fn trace(case: &ChaosCase, which: u8) -> (Vec<Obs>, Vec<String>) {
     let mut violations = vec![];
+    crate::vclock::advance_ns(case.clock_offset_us as u64 * 1_000);
     let log = Log::new();
     let mut sim = Sim::new(log.clone(), vec![]);
     let reqs = case.requests.clone();
@@ -246,14 +258,23 @@ async fn trace(case: &ChaosCase, which: u8) -> (Vec<Obs>, Vec<String>) {
                     violations.push(format!("request {i}: inner service received a different request"));
                 }
                 let (_, lat, ok) = case.requests[i];
+                // completion instant of the inner call as logged by the inner service itself (its
+                // own timer may fire a millisecond late on an off-grid clock)
+                let done_t = snap
+                    .iter()
+                    .find_map(|e| match e {
+                        Ev::Done { t, serial: s, .. } if s == serial => Some(*t),
+                        _ => None,
+                    })
+                    .unwrap_or(et + lat as u64);
                 match &resolve {
                     Some((rt, Outcome::Ok { serial: s, req })) => {
-                        if !ok || s != serial || req.id != i as u32 || *rt != et + lat as u64 {
+                        if !ok || s != serial || req.id != i as u32 || *rt != done_t {
                             violations.push(format!("request {i}: result is not its own inner result at its completion instant"));
                         }
                     }
                     Some((rt, Outcome::Inner { serial: s, code })) => {
-                        if ok || s != serial || *code != 3 || *rt != et + lat as u64 {
+                        if ok || s != serial || *code != 3 || *rt != done_t {
                             violations.push(format!("request {i}: error is not its own inner error at its completion instant"));
                         }
                     }
@@ -349,7 +370,8 @@ pub fn run_case(case: &ChaosCase) -> Report {
                         case.min_ms, case.max_ms
                     ));
                 }
-                if d != ann {
+                let late = (case.clock_offset_us > 0) as u64;
+                if d < ann || d > ann + late {
                     r.fail(format!(
                         "request {i}: {ann} ms of latency announced but the inner call started {d} ms after arrival"
                     ));
@@ -374,6 +396,9 @@ pub fn run_case(case: &ChaosCase) -> Report {
     }
     if n_pass > 0 {
         r.class("passed_through");
+    }
+    if case.clock_offset_us > 0 {
+        r.class("clock_off_the_millisecond_grid");
     }
     if case.error_rate == 0 && case.latency_rate == 0 {
         r.class("both_rates_zero");
